@@ -33,25 +33,12 @@ Definition part_eqb (p q : part) : bool :=
   end.
 Definition msg_eqb (a b : message) : bool := list_eqb part_eqb a b.
 
-(** the ordered-list session (same driver, other store instance) *)
-Section OmSession.
-  Variable cfg : N * N.
-  Definition om_process (S : list entry) (now ns : N) (m : message) :=
-    process_message om_ops (fst cfg) (snd cfg) (fun _ => MISSING)
-      (fun _ e st => validate_empty EHASH e && match validate_entry MAXF now ns (mkW e (sig_bit_ok st)) false with None => true | Some _ => false end) S m.
-  Fixpoint om_session (fuel : nat) (now ns : N) (SA SB : list entry) (m : message) (turn_b : bool)
-           (acc : list message) : option (list entry * list entry * list message) :=
-    match fuel with
-    | O => None
-    | S f =>
-        if turn_b then
-          let '(SB', reply, _) := om_process SB now ns m in
-          match reply with None => Some (SA, SB', rev acc) | Some r => om_session f now ns SA SB' r false (r :: acc) end
-        else
-          let '(SA', reply, _) := om_process SA now ns m in
-          match reply with None => Some (SA', SB, rev acc) | Some r => om_session f now ns SA' SB r true (r :: acc) end
-    end.
-End OmSession.
+(** the ordered-list session (same driver, other store instance): [Model.Ranger.list_session]
+    with the validation of the sync path *)
+Definition om_valid (now ns : N) (e : entry) (st : N) : bool :=
+  validate_empty EHASH e && match validate_entry MAXF now ns (mkW e (sig_bit_ok st)) false with None => true | Some _ => false end.
+Definition om_session (cfg : N * N) (fuel : nat) (now ns : N) :=
+  list_session (fst cfg) (snd cfg) (om_valid now ns) fuel.
 
 Definition total_values (ms : list message) : N := fold_left (fun a m => a + value_count m) ms 0.
 
